@@ -241,9 +241,14 @@ def StageReference(dataReference,  # type: experiment.model.graph.DataReference
                             raise tarfile.ReadError(
                                 'Archive contains files that would be extracted outside of destination')
 
-                tar.extractall(dest)
+                if hasattr(tarfile, 'data_filter'):
+                    # The check above is lexical. The 'data' extraction filter additionally resolves the links that
+                    # earlier members of the same archive created (e.g. `d/link -> ..` followed by `d/link/../x`)
+                    tar.extractall(dest, filter='data')
+                else:
+                    tar.extractall(dest)
                 tar.close()
-    except (shutil.Error, tarfile.ReadError, OSError) as stageError:
+    except (shutil.Error, tarfile.TarError, OSError) as stageError:
         raise experiment.model.errors.DataReferenceCouldNotStageError(dataReference, stageError)
 
 
